@@ -76,6 +76,12 @@ def field_corner(row, w, entropy):
     """in 30 % of the draws one non-register field of the encoding is put at a corner (0, 1, max, max-1, top bit): imm5 = 0 (shift by 32), rotation 0,
     saturate-to 1/32, width-minus-1 = 0/31, lsb = 31, offset 0/max ... - a uniform draw reaches each with probability 2^-width only"""
     rng = random.Random(entropy ^ 0xC0FFEE)
+    if row.name.startswith(('SRS', 'CPS')) and 'm' in row.fields and len(row.fields['m']) == 5 and rng.random() < 0.75:
+        # a 5-bit mode number: only 9 of the 32 values name a mode (the rest is UNPREDICTABLE and only checked for totality)
+        v = rng.choice((0b10000, 0b10001, 0b10010, 0b10011, 0b10110, 0b10111, 0b11010, 0b11011, 0b11111))
+        for j, p_ in enumerate(reversed(row.fields['m'])):
+            w = (w & ~(1 << p_)) | (((v >> j) & 1) << p_)
+        return w
     if rng.random() >= 0.3:
         return w
     cands = [k for k in sorted(row.fields) if k not in REGFIELDS and k not in 'cr' and len(row.fields[k]) >= 2]
